@@ -1,30 +1,51 @@
 import z3
+
+
 def purify(fmls):
     """Abstract scalar-sorted array reads and uninterpreted-function applications by fresh constants
-    (syntactically equal terms share a constant). Quantified formulas are left untouched. Sound for `unsat`."""
+    (syntactically equal terms share a constant). Quantified formulas are left untouched. Sound for `unsat`.
+    z3 ast ids are reused after garbage collection, so every term whose id is cached is kept alive for the whole call."""
     cache = {}
+    keep = []
+    _q = {}
+    _g = {}
+
+    def has_quant(e):
+        i = e.get_id()
+        if i not in _q:
+            keep.append(e)
+            _q[i] = z3.is_quantifier(e) or any(has_quant(c) for c in e.children())
+        return _q[i]
+
+    def ground(e):
+        i = e.get_id()
+        if i not in _g:
+            keep.append(e)
+            _g[i] = (not z3.is_var(e)) and all(ground(c) for c in e.children())
+        return _g[i]
+
     def rec(e):
-        if z3.is_quantifier(e) or not z3.is_app(e) or z3.is_const(e): return e
-        if has_quant(e): return e
+        if z3.is_quantifier(e) or not z3.is_app(e) or z3.is_const(e):
+            return e
+        if has_quant(e):
+            return e
         k = e.decl().kind()
         scalar = e.sort().kind() != z3.Z3_ARRAY_SORT
         if k in (z3.Z3_OP_SELECT, z3.Z3_OP_UNINTERPRETED) and scalar and ground(e):
             key = e.get_id()
-            if key not in cache: cache[key] = z3.FreshConst(e.sort(), "pur")
+            if key not in cache:
+                keep.append(e)
+                cache[key] = z3.FreshConst(e.sort(), "pur")
             return cache[key]
         args = [rec(a) for a in e.children()]
-        try: return e.decl()(*args)
-        except Exception: return e
-    _q = {}
-    def has_quant(e):
-        i = e.get_id()
-        if i not in _q:
-            _q[i] = z3.is_quantifier(e) or any(has_quant(c) for c in e.children())
-        return _q[i]
-    _g = {}
-    def ground(e):
-        i = e.get_id()
-        if i not in _g:
-            _g[i] = (not z3.is_var(e)) and all(ground(c) for c in e.children())
-        return _g[i]
-    return [rec(z3.simplify(f)) for f in fmls]
+        try:
+            return e.decl()(*args)
+        except Exception:
+            return e
+    out = []
+    for f in fmls:
+        sf = z3.simplify(f)
+        keep.append(sf)
+        r = rec(sf)
+        out.append(r if z3.is_bool(r) else f)
+    return out
